@@ -978,6 +978,62 @@ def union_by_usage_pair(rng, kind):
     return old.tl(), new.tl(), where
 
 
+# --------------------------------------------------------------------------- a mask / nat source moved between template argument #k and field #k
+
+MASK_SOURCE_VARIANTS = ["mask", "mask-rev", "inner", "size"]
+
+
+def mask_source_pair(rng, k, variant):
+    """(old text, new text): a type with nat template arguments #0..#k and a `#` field at field index k; ONE reference
+    is re-pointed from the field to the template argument with the same index (variant mask: a field mask; mask-rev:
+    the other direction; inner: a nat passed to a nat-templated type; size: a tuple size), nothing else changes.
+    All tags explicit (an implicit tag would move with the declaration text); a holder and a function instantiate the
+    type with constants so that generated code has top-level objects whose encodings show the difference."""
+    g = Gen(rng)
+    s = g.schema(ntypes=rng.randrange(0, 3), nfuns=rng.randrange(0, 2))
+    n = rng.randrange(1000)
+    targs = [(f"n{i}", "#") for i in range(k + 1)]
+    fk, nk = f"f{k}", f"n{k}"
+    fs = [Field(f"f{i}", T(rng.choice(["int", "long", "#"]))) for i in range(k)] + [Field(fk, T("#"))]
+    extra = []
+    if variant in ("mask", "mask-rev"):
+        b1, b2 = rng.sample(range(8), 2)
+        fs += [Field("x", T("int"), (fk, b1)), Field("y", T("long"), (nk, b2))]
+        edit = ("x", nk) if variant == "mask" else ("y", fk)
+    elif variant == "inner":
+        inner = Comb(f"inr{n}", f"Inr{n}", [("m", "#")], [Field("w", T("int"), ("m", rng.randrange(8)))])
+        extra.append(inner)
+        fs += [Field("x", T(f"inr{n}", [T(fk)])), Field("y", T(f"inr{n}", [T(nk)]))]
+        edit = ("x", nk)
+    else:
+        fs += [Field("x", T("tuple", [T("int"), T(fk)])), Field("y", T("tuple", [T("long"), T(nk)]))]
+        edit = ("x", nk)
+    foo = Comb(f"foo{n}", f"Foo{n}", targs, fs)
+
+    def inst():
+        return T(rng.choice([f"foo{n}", f"Foo{n}"]), [T(nat=rng.choice([0, 0, 1, 2, 5])) for _ in range(k + 1)])
+
+    users = [Comb(f"hold{n}", f"Hold{n}", [], [Field("a", inst()), Field("b", inst()), Field("c", g.scalar())]),
+             Comb(f"getFoo{n}", "", [], [Field("q", inst())], isfun=True, res=T("Int"))]
+    old = s.copy()
+    block = extra + [foo] + users
+    if rng.random() < 0.5:
+        block = users + [foo] + extra
+    pos = rng.randrange(len(old.combs) + 1)
+    old.combs[pos:pos] = block
+    for c in old.combs:
+        c.tag = rng.randrange(1, 1 << 32)
+    new = old.copy()
+    nfoo = new.by_name(f"foo{n}")
+    for f in nfoo.fields:
+        if f.name == edit[0]:
+            if f.mask:
+                f.mask = (edit[1], f.mask[1])
+            else:
+                f.typ.args = [T(edit[1]) if (a.nat is None and a.name in (fk, nk)) else a for a in f.typ.args]
+    return old.tl(), new.tl()
+
+
 # --------------------------------------------------------------------------- harness plumbing
 
 def lint_harness(ctx):
